@@ -81,10 +81,14 @@ func (u *universe) trc(kind string, k int) cppki.SignedTRC {
 		if k == 2 {
 			p.Votes, signers = []int{}, []int{1, 2, 3, 4}
 		}
-	case "otherisd", "o":
+	case "otherisd", "o", "of":
 		p.ISD, p.Certs, signers = 2, []int{11, 12, 13, 14, 15}, []int{13, 14}
-	case "of":
-		p.ISD, p.Certs, signers, p.NB = 2, []int{11, 12, 13, 14, 15}, []int{13, 14}, 2
+		if k == 1 { // the base TRC of that ISD
+			signers = []int{11, 12, 13, 14}
+		}
+		if kind == "of" {
+			p.NB = 2
+		}
 	default:
 		vt.Fatal("unknown TRC kind %q", kind)
 	}
